@@ -62,6 +62,11 @@ theorem C17_ntimed_raw_sign (x : Sample) (hd : InDomain x) :
   unfold Close at h
   constructor <;> intro _ <;> omega
 
+/-- The bound cannot be relative to `|raw|` (DESIGN's target): legs of 10^18 ns that cancel to
+    a half-sum of 3 ns give output 0, i.e. an error of 3 ns > 1 + 2⁻⁵⁰·3. -/
+example : ntimedRaw ⟨0, -1000000000000000001, 1000000000000000000, 6⟩ = 0 ∧
+    rawOffset ⟨0, -1000000000000000001, 1000000000000000000, 6⟩ = -3 := by decide +kernel
+
 /-- Non-vacuity: a present-day exchange (10 ms each way, 1 ms offset) is in the domain, and
     there the bound is one nanosecond. -/
 example : InDomain ⟨1700000000000000000, 1700000000011000000, 1700000000011050000, 1700000000020050000⟩ := by
